@@ -80,6 +80,42 @@ fn router() -> Arc<Router> {
         })
         .clone()
 }
+/// Index of the scheduler instance owned by the calling (exploring) thread.
+pub fn my_instance_index() -> usize {
+    my_instance().0
+}
+/// Let a helper thread (a fresh thread per execution, see `fresh_thread`) drive the exploring thread's instance.
+pub fn adopt_instance(idx: usize) {
+    let _ = router();
+    MY_INSTANCE.with(|c| c.set(Some(idx)));
+}
+/// Run `f` on a fresh OS thread that drives the caller's scheduler instance. std's HashMap/DashMap seeds are
+/// per-thread counters started from a 16-byte OS entropy draw, which the shim pins (verif_entropy_pin16): on a
+/// fresh thread every hash map created by the same code gets the same seed, so iteration order - and with it
+/// the order of hook sites - is reproducible from one execution to the next.
+pub fn fresh_thread<T: Send>(f: impl FnOnce() -> T + Send) -> T {
+    pin16();
+    let idx = my_instance_index();
+    std::thread::scope(|s| {
+        s.spawn(move || {
+            adopt_instance(idx);
+            f()
+        })
+        .join()
+        .expect("execution thread panicked")
+    })
+}
+fn pin16() {
+    static ONCE: std::sync::Once = std::sync::Once::new();
+    ONCE.call_once(|| {
+        let name = std::ffi::CString::new("verif_entropy_pin16").unwrap();
+        let p = unsafe { libc::dlsym(libc::RTLD_DEFAULT, name.as_ptr()) };
+        if !p.is_null() {
+            let f: unsafe extern "C" fn(i32) = unsafe { std::mem::transmute(p) };
+            unsafe { f(1) };
+        }
+    });
+}
 /// The scheduler instance owned by the calling (exploring) thread.
 fn my_instance() -> (usize, Arc<Instance>) {
     let r = router();
